@@ -227,3 +227,35 @@ pub fn r_cross(prev_delta: ValueType, cur_delta: ValueType) -> i8 {
 pub fn r_action(sign: i8) -> yata::core::Action {
 	yata::core::Action::from(sign)
 }
+
+/// i-th input of a stream following a shape pattern (one char per step, the last char repeats):
+///   'f' free symbolic value, 'u' previous + a_i (a_i > 0), 'd' previous - a_i (a_i > 0),
+///   '=' previous (plateau), 'r' the value two steps back (exact cancellation of the last move),
+///   's' previous * 1024 (abrupt change of scale), 'z' zero
+/// magnitudes stay symbolic; the pattern only fixes the shape the quantifier of the properties names
+/// (plateaus, exact returns, monotone runs, scale jumps) so that the solver does not have to find it
+pub fn shaped_input(pattern: &str, i: usize, hist: &[ValueType]) -> ValueType {
+	let p: Vec<char> = pattern.chars().collect();
+	let ch = if p.is_empty() { 'f' } else if i < p.len() { p[i] } else { p[p.len() - 1] };
+	let prev = hist[hist.len() - 1];
+	let prev2 = if hist.len() >= 2 { hist[hist.len() - 2] } else { prev };
+	if ch == 'u' {
+		let a = rsx::val_i("a", i);
+		rsx::assume(a > 0.0);
+		prev + a
+	} else if ch == 'd' {
+		let a = rsx::val_i("a", i);
+		rsx::assume(a > 0.0);
+		prev - a
+	} else if ch == 'e' {
+		prev
+	} else if ch == 'r' {
+		prev2
+	} else if ch == 's' {
+		prev * 1024.0
+	} else if ch == 'z' {
+		0.0
+	} else {
+		rsx::val_i("x", i)
+	}
+}
